@@ -460,7 +460,15 @@ def _put_one_constant(
     if (value < 0 if isinstance(value, (int, float)) else value.imag < 0 if isinstance(value, complex) else False):
         raise NodeError('Constant.value cannot be negative')
 
-    self._put_src(repr(value), *self.loc, True)
+    src = repr(value)
+
+    if isinstance(value, (float, complex)):  # repr() of infinities is not their source, and nan has no source form at all
+        if 'nan' in src:
+            raise NodeError('Constant.value cannot be nan')
+
+        src = src.replace('inf', '1e309')
+
+    self._put_src(src, *self.loc, True)
 
     ast = self.a
     ast.value = value
